@@ -49,12 +49,17 @@ JANET = r'''
                               " w=" (string/join (map string (sort (array/slice wlog))) ",")
                               " g=" (string/join (map string (sort (array/slice glog))) ",")))))
   (print (string/join out " ; "))
+  (flush)
   # release whoever still waits so the loop can end
   (ev/chan-close c)
   (repeat 3 (ev/sleep 0))
   # a fiber that is still parked here lost its wake-up (already recorded in the observation): do not let it keep the loop alive
   (eachp [_ fb] fibers (if (fiber/can-resume? fb) (ev/cancel fb "end of history")))
   (ev/sleep 0))
+# every history has been observed and printed: do not wait for the loop to run dry (events that were posted but never read
+# keep it alive for ever - that loss is already in the observations above)
+(flush)
+(os/exit 0)
 '''
 
 
@@ -152,6 +157,19 @@ def gen_sequence(rng, s_after_close=False):
     return ops
 
 
+def run_impl(janet, jp, sp, timeout=240):
+    """-> (output lines, rc or None if killed by the hang detector, stderr tail)"""
+    try:
+        r = subprocess.run([janet, jp], env=dict(os.environ, C08_SEQ=sp), stdout=subprocess.PIPE, stderr=subprocess.PIPE, timeout=timeout)
+        return r.stdout.decode(errors="replace").splitlines(), r.returncode, r.stderr.decode(errors="replace")[-400:]
+    except subprocess.TimeoutExpired as e:
+        out = (e.stdout or b"").decode(errors="replace")
+        lines = out.splitlines()
+        if out and not out.endswith("\n"):
+            lines = lines[:-1]
+        return lines, None, (e.stderr or b"").decode(errors="replace")[-400:]
+
+
 def compare(ctx, janet, exe, seqs, flags):
     """-> (diffs, number of compared lines, coverage dict)"""
     global impl_oracle_failures
@@ -166,10 +184,17 @@ def compare(ctx, janet, exe, seqs, flags):
             f.write("\n".join(" ".join(s) for s in seqs) + "\n")
         with open(jp, "w") as f:
             f.write(JANET)
-        r = subprocess.run([janet, jp], env=dict(os.environ, C08_SEQ=sp), stdout=subprocess.PIPE, stderr=subprocess.PIPE, timeout=300)
-        impl = r.stdout.decode(errors="replace").splitlines()
-        if r.returncode != 0 or len(impl) != len(seqs):
-            raise RuntimeError("op-sequence harness: rc=%r, %d/%d lines, stderr %s" % (r.returncode, len(impl), len(seqs), r.stderr.decode(errors="replace")[-400:]))
+        impl, rc, err = run_impl(janet, jp, sp)
+        if len(impl) < len(seqs):
+            # the implementation stopped (crash) or hung inside a history: that history is a failing input of its own; the
+            # histories before it are still compared
+            k = len(impl)
+            impl_oracle_failures.append({"sig": "opseq-crash" if rc is not None else "opseq-hang", "ops": " ".join(seqs[k]), "observed": "rc=%r stderr %s" % (rc, err[-300:]),
+                                         "why": "single-loop history `%s`: the implementation %s before the history was over (rc=%r)" % (
+                                             " ".join(seqs[k]), "stopped" if rc is not None else "did not come back from a non-blocking step (hang detector)", rc)})
+            seqs = seqs[:k]
+        elif rc != 0 or len(impl) != len(seqs):
+            raise RuntimeError("op-sequence harness: rc=%r, %d/%d lines, stderr %s" % (rc, len(impl), len(seqs), err[-400:]))
     finally:
         import shutil
         shutil.rmtree(d, ignore_errors=True)
